@@ -17,6 +17,7 @@ import (
 	"math"
 	"os"
 	"path/filepath"
+	"strings"
 	"sync"
 	"sync/atomic"
 	"time"
@@ -191,6 +192,18 @@ func (c *caseRun) stage(name string, f func()) {
 		msg = e.Error()
 	}
 	s := sigFromStack("panic", msg, stack)
+	// singleflight (and similar wrappers) re-panic with a value whose text carries the
+	// stack of the original panic: the crash site is in there, not in the re-panic stack.
+	if i := strings.Index(msg, "\n\n"); i >= 0 && strings.Contains(msg[i:], "\n\t/") {
+		first := msg[:i]
+		if j := strings.IndexByte(first, '\n'); j >= 0 {
+			first = first[:j]
+		}
+		if s2 := sigFromStack("panic", first, msg[i+2:]); !s2.Harness {
+			s = s2
+		}
+		msg = first + " (re-panicked by a wrapper; original stack used for the signature)"
+	}
 	if s.Harness {
 		c.r.Inconclusive("harness-panic in stage " + name + ": " + oneLine(msg, 120))
 		c.r.Logf("HARNESS PANIC case %d stage %s: %s\n%s", c.in.Idx, name, msg, stack)
@@ -594,7 +607,8 @@ func (c *caseRun) walkMeta(tag string, mr metadata.Reader, visitCap int) []fileR
 					q = append(q, qi{k.id, it.depth + 1})
 				}
 			}
-			for _, n := range []string{"", ".", "..", "no-such", ".wh..wh..opq", estargz.PrefetchLandmark, estargz.NoPrefetchLandmark} {
+			// (no empty name: neither the kernel nor the daemon ever looks up "")
+			for _, n := range []string{".", "..", "no-such", ".wh..wh..opq", estargz.PrefetchLandmark, estargz.NoPrefetchLandmark} {
 				_, _, _ = mr.GetChild(it.id, n)
 			}
 		}
@@ -806,6 +820,9 @@ func (c *caseRun) readerChain(store string, mr metadata.Reader, files []fileRef)
 						continue // the kernel never issues negative offsets
 					}
 					for _, bl := range []int{len(buf), 1, 7} {
+						if bl > len(buf) {
+							bl = len(buf)
+						}
 						got, err := ra.ReadAt(buf[:bl], o)
 						if err != nil && err != io.EOF {
 							c.err("reader.file.ReadAt", err)
@@ -1028,7 +1045,7 @@ func (c *caseRun) walkNodes(store string, root *nodefs.N) {
 						q = append(q, qi{ch, it.depth + 1, e.Name})
 					}
 				}
-				for _, nm := range []string{"no-such", ".wh.x", "", ".", "..", estargz.PrefetchLandmark} {
+				for _, nm := range []string{"no-such", ".wh.x", ".", "..", estargz.PrefetchLandmark} {
 					_, _, _ = n.Lookup(nm)
 				}
 			case 0o120000:
